@@ -69,6 +69,12 @@ class C11:
             if fn in ('neg', 'ufunc:exp', 'ufunc:sqrt'):
                 return {'fn': fn, 'args': [h]}
             other = rng.choice([2, 0.5, 3.0, rng.choice(pool)])
+            if rng.random() < 0.2:
+                # constants that are nearly, but not exactly, the identity
+                # (a 5 nm shell on a length in metres, a 1 ppm correction)
+                other = rng.choice([5e-9, -3e-9, 1e-8]) \
+                    if fn in ('add', 'sub', 'ufunc:add') \
+                    else rng.choice([1.000001, 0.9999999])
             if rng.random() < 0.3:
                 return {'fn': fn, 'args': [other if not isinstance(
                     other, dict) else 2, h]}
